@@ -1,5 +1,83 @@
 import Cellml.Basic.Sexp
-/-! Channel C11 of the model driver (stub: not built yet). -/
+import Cellml.C11.Printer
+import Cellml.C11.Rewrite
+
+/-! Channel C11 of the model driver.
+    `(C11 print <tree>)`            → `(ok (str "…") (shape <doc, parens erased>) (pyok true|false))`
+                                     | `(err ValueError)` | `(unsupported)`
+    `(C11 rewrite <built> <post>)`  → `(same)` | `(differs <model's tree printed>)` | `(unsupported)`
+    Trees are S-expressions of what SymPy built: `(Add a b …) (Mul …) (Pow b e) (Int n) (Rat p q) (Float "text" neg|pos)
+    (Symbol "x" c|nc) (Fn "name" a …) (Rel "op" a b) (And …) (Or …) (Not a) (Piecewise (v c) …) (Derivative "x" "t")
+    (Pi) (E) (True) (False) (NaN) (Other "class")`. -/
 namespace C11
-def handle (_args : List Sexp) : Sexp := .atom "not-implemented"
+open Sexp
+
+def listE (xs : List E) : E := xs.foldr E.cons E.nil
+
+partial def toE : Sexp → E
+  | .list [.atom "Symbol", n, c] => .sym ((atomOf? n).getD "?") (c == .atom "c")
+  | .list [.atom "Int", n] => .int ((int? n).getD 0)
+  | .list [.atom "Rat", p, q] => .rat ((int? p).getD 0) ((nat? q).getD 0)
+  | .list [.atom "Float", t, s] => .flt ((atomOf? t).getD "?") (s == .atom "neg")
+  | .list [.atom "Pi"] => .pi
+  | .list [.atom "E"] => .e1
+  | .list [.atom "True"] => .tt
+  | .list [.atom "False"] => .ff
+  | .list (.atom "Add" :: args) => .add (listE (args.map toE))
+  | .list (.atom "Mul" :: args) => .mul (listE (args.map toE))
+  | .list (.atom "And" :: args) => .and (listE (args.map toE))
+  | .list (.atom "Or" :: args) => .or (listE (args.map toE))
+  | .list [.atom "Pow", b, x] => .pow (toE b) (toE x)
+  | .list (.atom "Fn" :: n :: args) => .fn ((atomOf? n).getD "?") (listE (args.map toE))
+  | .list [.atom "Rel", op, a, b] =>
+      match Rel.ofText? ((atomOf? op).getD "") with
+      | some r => .rel r (toE a) (toE b)
+      | none => .other "Relational"
+  | .list (.atom "Piecewise" :: pairs) =>
+      .pw (listE (pairs.map fun p => match p with
+        | .list [v, c] => .pair (toE v) (toE c)
+        | _ => .other "pair"))
+  | .list [.atom "Derivative", x, t] => .deriv ((atomOf? x).getD "?") ((atomOf? t).getD "?")
+  | .list [.atom "Not", _] => .other "Not"
+  | .list [.atom "NaN"] => .other "NaN"
+  | .list [.atom "Other", n] => .other ((atomOf? n).getD "?")
+  | _ => .other "malformed"
+
+def bopName : Bop → String
+  | .add => "add" | .sub => "sub" | .mul => "mul" | .div => "div" | .pow => "pow"
+
+/-- the Doc with `paren` nodes erased, as an S-expression -/
+def shape : Doc → Sexp
+  | .atom s => .list [.atom "atom", .str s]
+  | .call f args => .list (.atom "call" :: .str f :: argShapes args)
+  | .neg d => .list [.atom "neg", shape d]
+  | .bin op a b => .list [.atom (bopName op), shape a, shape b]
+  | .cmp r a b => .list [.atom "cmp", .str r.text, shape a, shape b]
+  | .and a b => .list [.atom "and", shape a, shape b]
+  | .or a b => .list [.atom "or", shape a, shape b]
+  | .ite t c e => .list [.atom "ite", shape t, shape c, shape e]
+  | .paren d => shape d
+  | .nil => .atom "nil"
+  | .cons h t => .list [.atom "cons", shape h, shape t]
+where argShapes : Doc → List Sexp
+  | .cons h t => shape h :: argShapes t
+  | _ => []
+
+def printReply (e : E) : Sexp :=
+  let o := pr e
+  match o.st with
+  | .ok => .list [.atom "ok", .list [.atom "str", .str (flatten o.doc)], .list [.atom "shape", shape o.doc],
+                  .list [.atom "pyok", ofBool (PyOK o.doc)]]
+  | .verr => .list [.atom "err", .atom "ValueError"]
+  | .unsup => .list [.atom "unsupported"]
+
+def handle (args : List Sexp) : Sexp :=
+  match args with
+  | [.atom "print", t] => printReply (toE t)
+  | [.atom "rewrite", built, post] =>
+      match rewriteTrig (toE built) with
+      | none => .list [.atom "unsupported"]
+      | some e' => if e' == toE post then .list [.atom "same"] else .list [.atom "differs"]
+  | _ => .atom "bad-request"
+
 end C11
